@@ -141,12 +141,11 @@ def run_world(desc: dict[str, Any], *, scoped: bool = True, capture_logs: bool =
 
     lag = desc.get('lag')
     if lag:
-        vals = lag['values']
         def lag_fn(s: fakekube.WatchStream, ev: dict[str, Any]) -> float:
             if s.plural != lag.get('plural', plural):
                 return 0.0
-            if lag.get('only_own_echo') and ev.get('_writer') is None:
-                pass
+            own = str(kube.writer).startswith('op')
+            vals = lag.get('own', lag.get('values', [0.0])) if own else lag.get('foreign', lag.get('values', [0.0]))
             return rng.choice(vals)
         kube.lag_fn = lag_fn
     kube.post_yields = int(desc.get('post_yields', 0))
